@@ -18,7 +18,7 @@ import (
 func init() {
 	core.Register(&core.Simple{
 		Id: "C12", Lvl: "exploration", Quick: 300, Thorough: 10000, PerBatch: 75, Width: 16, Timeout: 1500,
-		RuleText: "each case is a history of 25-50 steps over 2-9 clients with random read/send/open-chat/any-name privileges: connect+login (both login flows), invite-new, invite-to, join, leave, leave by a non-member, decline, set-subject, public and private send (plain and emote, messages 0..9000 arbitrary bytes), disconnect; a reference chat model computes per step the required deliveries (chat lines, subject changes, join and leave notices) and the permitted ones (invitation to the invitee, decline line to members); at hook-based quiescence every client's newly received chat transactions (types 106,113,117,118,119) must contain each required delivery exactly once and nothing that is not permitted for it. A race-build stress batch has all members of frozen chats send concurrently with unique message ids, and a churn batch lets members leave and re-join while others send, then checks that those who finally left are out of the audience. distinct = multiset of step kinds; non-trivial = history has a private send after a leave/decline/disconnect or a public send with mixed read privileges",
+		RuleText: "each case is a history of 25-50 steps over 2-9 clients with random read/send/open-chat/any-name privileges: connect+login (both login flows), invite-new, invite-to, join, leave, leave by a non-member, requests by an outsider on a chat id that does not exist, decline, set-subject, public and private send (plain and emote, messages 0..9000 arbitrary bytes), disconnect; a reference chat model computes per step the required deliveries (chat lines, subject changes, join and leave notices) and the permitted ones (invitation to the invitee, decline line to members); at hook-based quiescence every client's newly received chat transactions (types 106,113,117,118,119) must contain each required delivery exactly once and nothing that is not permitted for it. A race-build stress batch has all members of frozen chats send concurrently with unique message ids, and a churn batch lets members leave and re-join while others send, then checks that those who finally left are out of the audience. distinct = multiset of step kinds; non-trivial = history has a private send after a leave/decline/disconnect or a public send with mixed read privileges",
 		Case:     runCase,
 		Extra: func(tier string, seed int64) []core.Batch {
 			n := 6
@@ -57,6 +57,7 @@ type delivery struct {
 }
 
 type world struct {
+	ghosts  int
 	c                                 *core.Case
 	srv                               *fixture.Server
 	clients                           []*mclient
@@ -202,7 +203,7 @@ func (w *world) doStep() ([]delivery, bool) {
 	r := w.c.R
 	conn := w.connected()
 	var exp []delivery
-	kind := core.Pick(r, []string{"public", "public", "private", "private", "private", "invite-new", "invite-new", "invite-to", "join", "join", "leave", "stray-leave", "decline", "subject", "disconnect", "connect"})
+	kind := core.Pick(r, []string{"public", "public", "private", "private", "private", "invite-new", "invite-new", "invite-to", "join", "join", "leave", "stray-leave", "decline", "subject", "disconnect", "connect", "ghost-chat"})
 	if len(conn) < 2 {
 		kind = "connect"
 	}
@@ -392,6 +393,26 @@ func (w *world) doStep() ([]delivery, bool) {
 				exp = append(exp, delivery{i, fmt.Sprintf("118 chat=%x user=%x", ch.id, rc.U16(int(m.id))), true})
 			}
 		}
+	case "ghost-chat":
+		// somebody who is in no chat at all declines, leaves or writes to a chat id that does not exist (its own
+		// connection may well be dropped for that); every real chat must go on working for its members
+		w.ghosts++
+		g, err := refclient.LoginAs(w.srv, fmt.Sprintf("10.12.66.%d:%d", 1+w.ghosts%250, 3000+w.step), "u0", "", fmt.Sprintf("Ghost%d", w.ghosts))
+		if err != nil {
+			return nil, true
+		}
+		bogus := r.Bytes(4)
+		switch r.Intn(3) {
+		case 0:
+			g.Send(114, rc.F(114, bogus))
+		case 1:
+			g.Send(116, rc.F(114, bogus))
+		case 2:
+			g.Send(105, rc.F(114, bogus), rc.FS(101, "to nobody"))
+		}
+		g.Conn.WaitIdle(refclient.Watchdog)
+		g.Hangup()
+		w.log = append(w.log, fmt.Sprintf("an outsider addresses the non-existent chat %x and goes away", bogus))
 	case "stray-leave":
 		// a leave request from somebody who is not (or no longer) a member: a duplicate leave, or an invitee who never
 		// joined. It must not change the chat's audience; a leave notice to the members is tolerated, not demanded.
